@@ -259,3 +259,78 @@ func HarnessC14Reconcile() {
 	zz.Assert("second-reconcile-creates-no-revision", s.Count(zzPkgGroup, "ProviderRevision") <= before)
 	zz.Observe("post", len(post), len(deleted), curRev.active)
 }
+
+// HarnessC14Faults: a package reconcile interrupted at any API call (error
+// without effect, error after effect, conflict) from an arbitrary valid
+// pre-state, followed by a fault-free retry. At every instant at most one
+// revision is Active; the interrupted reconcile deletes at most one revision
+// and never the current one; after the retry the current revision exists, is
+// numbered last and is Active (unless activation is manual) and all others
+// are inactive.
+//
+//gosym:harness
+//gosym:cover fault-hit conflict-hit retried-ok
+func HarnessC14Faults() {
+	nRev := zz.Bound(2, 3)
+	s, p, pre := zzSetup(nRev)
+	cur := zzNewRev
+	if k := zz.Choose("currentIs", len(pre)+1); k < len(pre) {
+		cur = pre[k].name
+	}
+	s.OnMutate = zzAtMostOneActive(s)
+	req := reconcile.Request{NamespacedName: types.NamespacedName{Name: zzPkgName}}
+
+	s.FaultAt = zz.Choose("fault.at", zz.Bound(8, 10))
+	s.FaultKind = 1 + zz.Choose("fault.kind", 3)
+	_, _ = zzReconciler(s, cur).Reconcile(context.Background(), req)
+	if s.Faulted {
+		zz.Cover("fault-hit")
+		if s.FaultKind == kube.FaultConflict {
+			zz.Cover("conflict-hit")
+		}
+	}
+	s.FaultAt = -1
+	deleted := 0
+	for _, c := range s.Writes(false) {
+		if c.Verb == kube.VerbDelete && c.Effect {
+			deleted++
+			zz.Assert("interrupted-reconcile-never-deletes-the-current-revision", c.Name != cur)
+		}
+	}
+	zz.Assert("interrupted-reconcile-deletes-at-most-one-revision", deleted <= 1)
+
+	// retry until the reconcile settles (a conflict asks for a requeue)
+	var res reconcile.Result
+	var err error
+	for try := 0; try < 2; try++ {
+		res, err = zzReconciler(s, cur).Reconcile(context.Background(), req)
+		if err == nil && !res.Requeue {
+			break
+		}
+	}
+	zz.Assert("retry-settles", err == nil && !res.Requeue)
+	if err != nil || res.Requeue {
+		return
+	}
+	zz.Cover("retried-ok")
+	post := zzStoredRevisions(s)
+	var curRev *zzRevState
+	for i := range post {
+		if post[i].name == cur {
+			curRev = &post[i]
+		}
+	}
+	zz.Assert("current-revision-exists-after-retry", curRev != nil)
+	if curRev == nil {
+		return
+	}
+	for _, o := range post {
+		if o.name != cur {
+			zz.Assert("current-revision-numbered-last-after-retry", curRev.number > o.number)
+			zz.Assert("others-inactive-after-retry", zz.Not(o.active))
+		}
+	}
+	if p.Spec.RevisionActivationPolicy == nil {
+		zz.Assert("current-revision-active-after-retry", curRev.active)
+	}
+}
